@@ -58,6 +58,22 @@ def run(R):
                                                ('key_node_id', ast.Lt, 'len(self.model.nodes)'): False}.get(cmp_sides(t) or ()), 'signer id >= number of nodes')
     guard(df, 'C13.GRD.1', bullets[4], lambda t: {('branch', ast.NotEq, '1'): True, ('branch', ast.Eq, '1'): False}.get(cmp_sides(t) or ()), 'option arity')
     guard(df, 'C13.GRD.1', bullets[5], lambda t: {('node.parent', ast.NotEq, par): True, (par, ast.NotEq, 'node.parent'): True}.get(cmp_sides(t) or ()), 'parent link')
+    # the unconditional guards lie on every path into the walk; the parent guard may be skipped only for the start node (par is None)
+    loops0 = [n for n in df.cfg.nodes if n.kind == 'for']
+    if loops0:
+        work = min(loops0, key=lambda n: n.id)
+        for (label, pred, skips) in (('destination exists', lambda t: cmp_sides(t) in ((cur, ast.GtE, 'len(self.model.nodes)'), (cur, ast.Lt, 'len(self.model.nodes)')), set()),
+                                     ('node id == index', lambda t: cmp_sides(t) in (('node.id', ast.NotEq, cur), (cur, ast.NotEq, 'node.id'), ('node.id', ast.Eq, cur)), set()),
+                                     ('parent link', lambda t: cmp_sides(t) in (('node.parent', ast.NotEq, par), (par, ast.NotEq, 'node.parent')),
+                                      {(t.id, truthy_label(t.ast, par) is False) for t in df.cfg.nodes if t.kind == 'test' and truthy_label(t.ast, par) is not None
+                                       and ast.unparse(t.ast) != par})):
+            ts = [t for t in df.cfg.nodes if t.kind == 'test' and pred(t.ast)]
+            inst = f'{df.qual} :: guard "{label}" cannot be bypassed'
+            if ts and work.id in df.cfg.reachable(removed_nodes={t.id for t in ts}, removed_edges=skips, follow_exc=False):
+                R.fail('C13.GRD.1', inst, df.qual, ts[0].stmt if isinstance(ts[0].stmt, ast.If) else ts[0].ast,
+                       f'the check "{label}" is skipped on some path (it is conditional on more than the documented rule allows, e.g. an absent field)', site(df, ts[0].ast))
+            elif ts:
+                R.ok('C13.GRD.1', inst, site(df, ts[0].ast))
     # the arity count really counts the three alternatives
     br = [v for n in df.cfg.nodes for (nm, v) in df.cfg.defs_of(n) if nm == 'branch']
     inst = df.qual + ' :: option arity counts value / tag / fn'
@@ -126,6 +142,21 @@ def run(R):
                 R.fail('C13.GRD.3', inst, cx.qual, bad[0].ast, f'`{norm(bad[0].ast)}` does not raise the schema error', site(cx, bad[0].ast))
             else:
                 R.ok('C13.GRD.3', inst, site(cx, hits[0][0].ast))
+    # temporary rules are made unreferable: every rule whose identifier starts with `#_` is renamed with a unique suffix
+    ren = [n for n in sr.cfg.nodes if n.kind == 'stmt' and isinstance(n.ast, ast.AugAssign) and ast.unparse(n.ast.target) == 'rule.id.id']
+    inst = sr.qual + ' :: temporary rules are renamed (cannot be referred to as signers)'
+    rt = [t for t in sr.cfg.nodes if t.kind == 'test' and 'rule.id.id' in ast.unparse(t.ast)]
+    okr = len(ren) == 1 and len(rt) == 1 and ast.unparse(rt[0].ast) in ("rule.id.id[1] == '_'", "rule.id.id.startswith('#_')", "rule.id.id[:2] == '#_'") \
+        and ren[0].id not in sr.cfg.reachable(removed_edges={(rt[0].id, True)})
+    if okr:
+        R.ok('C13.GRD.3', inst, site(sr, ren[0].ast))
+    elif len(rt) == 1 and isinstance(rt[0].ast, ast.Compare) and ast.unparse(rt[0].ast.left) == 'rule.id.id' and isinstance(rt[0].ast.ops[0], ast.Eq):
+        R.fail('C13.GRD.3', inst, sr.qual, rt[0].ast, f'only the rule literally named {ast.unparse(rt[0].ast.comparators[0])} is renamed: a named temporary rule keeps its '
+               'identifier and can be referred to as a signer', site(sr, rt[0].ast))
+    elif not ren:
+        R.fail('C13.GRD.3', inst, sr.qual, 'def _sort_rule_references', 'temporary rules are not renamed: they can be referred to as signers', site(sr, sr.f.node))
+    else:
+        raise AnalysisError(f'{sr.qual}: unrecognised temporary-rule test `{norm(rt[0].ast) if rt else None}`')
     guard2(sr, 'reference to an undefined rule', lambda t: True if ast.unparse(t) == 'c.id not in rule_id_set' else None)
     guard2(sr, 'reference to a temporary rule', lambda t: True if ast.unparse(t) == "c.id[1] == '_'" else None)
     guard2(to, 'dangling identifier in a reference graph', lambda t: True if ast.unparse(t) in ('src not in nodes', 'dst not in nodes') else None)
